@@ -73,6 +73,7 @@ JudgeHS(e) ==
     IN
     IF sc.ia > MaxIA /\ aok THEN "C12.payload"                       \* @obligation C12.payload
     ELSE IF sc.keymode # "same" /\ (aok \/ bok) THEN "C12.wrongkey"  \* @obligation C12.wrongkey
+    ELSE IF ModelOK /\ "sync" \in {e.ra, e.rb} THEN "C12.sync"       \* @obligation C12.sync
     ELSE IF aok # bok THEN "C12.agree"                               \* @obligation C12.agree
     ELSE IF aok THEN
          IF e.ca # e.cb THEN "C12.agree"
@@ -84,7 +85,7 @@ JudgeHS(e) ==
          ELSE IF e.ca # d.cipher THEN "C12.cipher"                   \* not the method cryptoSelect chose
          ELSE ""
     ELSE IF ModelOK                                                  \* a handshake that has to complete failed
-         THEN IF {e.ra, e.rb} \cap {"sync", "timeout"} # {} THEN "C12.sync" ELSE "C12.agree"   \* @obligation C12.sync
+         THEN IF "timeout" \in {e.ra, e.rb} THEN "C12.sync" ELSE "C12.agree"       \* a hang counts as "not found"
     ELSE ""
 
 \* ---- one Dial / Accept scenario.  wab / wba = 1: the marker written after the handshake by the dialer /
@@ -99,6 +100,7 @@ JudgePOL(e) ==
     THEN "C12.forced.in"                                             \* @obligation C12.forced.in
     ELSE IF sc.ck = "rain" /\ sc.forceIn /\ OK(e.rb1) /\ (e.cb1 # RC4 \/ e.w1 = 1)
     THEN "C12.forced.in"
+    ELSE IF sc.keymode # "same" /\ ((aok /\ e.ca # 0 /\ e.natt = 1) \/ (bok /\ e.cb # 0)) THEN "C12.wrongkey"
     ELSE IF aok /\ e.natt > 1 /\ e.ca # 0 THEN "C12.cipher"          \* the plaintext redial reported as negotiated
     ELSE IF aok # bok THEN "C12.agree"
     ELSE IF aok THEN
@@ -107,12 +109,17 @@ JudgePOL(e) ==
          ELSE IF e.ca # e.cb THEN "C12.agree"
          ELSE IF ~ModelOK \/ e.ca # d.cipher \/ e.natt # att THEN "C12.model"
          ELSE ""
-    ELSE IF ModelOK \/ e.natt # att THEN "C12.model"
+    ELSE IF ModelOK THEN "C12.agree"                                 \* a connection that has to be established fails
+    ELSE IF e.natt # att THEN "C12.model"
     ELSE ""
 
+\* The tag is also printed: with Trace_MSE_all.cfg (no INVARIANT NoViolation) one TLC run judges every line of
+\* the file and the driver collects all "@@VIOL <line> <tag>" lines instead of re-running after each violation.
 TrJudge ==
     /\ ph = "run" /\ Done
-    /\ viol' = IF Ev.op = "HS" THEN JudgeHS(Ev) ELSE JudgePOL(Ev)
+    /\ LET tag == IF Ev.op = "HS" THEN JudgeHS(Ev) ELSE JudgePOL(Ev) IN
+       /\ viol' = tag
+       /\ (tag # "" => PrintT("@@VIOL " \o ToString(l) \o " " \o tag))
     /\ l' = l + 1
     /\ ph' = "idle"
     /\ UNCHANGED vars
